@@ -209,18 +209,23 @@ Definition policy_okb (r : fee_request) (F : Z) : bool :=
 (* [built]: the transaction build_tx returned, signed.  [unsafe_]: the transaction build_tx_unsafe yields after a
    successful change computation with nothing edited afterwards (None otherwise).  [slack]: the model's slack_ok
    for that change computation; [bind]: whether a requested minimal fee was binding.
-   - a transaction returned by build_tx must pay the ledger minimum and respect the fee request: no exception;
+   - a transaction returned by build_tx must pay the ledger minimum, respect the fee request and, signed, have exactly
+     the size the builder's full_size() reports: no exception;
    - the fee add_change sets must pay the ledger minimum of the transaction it belongs to, except for the
      known classes (both decided by the model: slack exceeded by the top-up = 1, under a binding minimal fee = 2);
    - an exactly requested fee need not be sufficient before build_tx's own check (the build then fails). *)
-Definition judge_tx (a b : Z) (p : prices) (pol : fee_request) (built unsafe_ : option tx_report) (slack bind : bool) : verdict :=
+Definition judge_tx (a b : Z) (p : prices) (pol : fee_request) (built unsafe_ : option tx_report) (slack bind : bool)
+    (full_size : option Z) : verdict :=
   let check_built :=
     match built with
     | None => NotApplicable
     | Some t =>
         match ledger_min_fee a b p t with
         | None => FailsUnknown
-        | Some m => if (m <=? r_fee t) && policy_okb pol (r_fee t) then Holds else FailsUnknown
+        | Some m =>
+            (* the really signed transaction has the size the builder estimated (full_size() of the final state) *)
+            let size_ok := match full_size with Some f => r_signed_size t =? f | None => true end in
+            if (m <=? r_fee t) && policy_okb pol (r_fee t) && size_ok then Holds else FailsUnknown
         end
     end in
   let check_unsafe :=
